@@ -250,3 +250,11 @@ Definition run_server (c : (list name * list name) * name * (name * Z) * (bool *
   | PkSigRejected => [4]
   | PkVerified k => 0 :: class_code (pk_class k) :: pk_ident k
   end.
+
+(* direct call of <key>.verify_ssh_sig: (class code, the key's identifier, signature label, valid hashes) *)
+Definition run_verify (c : Z * name * name * list Z) : list Z :=
+  let '(cls, ident, lab, valid) := c in
+  match class_of cls with
+  | None => [9]
+  | Some k => [if verify_ssh_sig (pv_of valid) (MkKey k ident 7) [] (MkSig lab []) then 1 else 0]
+  end.
